@@ -1,57 +1,169 @@
 //@ note: scratch experiments (not registered)
 use crate::stubs::*;
-use grafeo_core::index::vector::BinaryQuantizer;
-use grafeo_common::memory::buffer::{BufferManager, BufferManagerConfig, GrantReleaser, MemoryGrant, MemoryRegion};
+use grafeo_common::types::{LogicalType, Value};
+use grafeo_core::execution::chunk::{DataChunk, DataChunkBuilder};
+use grafeo_core::execution::operators::{LimitOperator, LimitSkipOperator, Operator, OperatorError, OperatorResult, SkipOperator};
+use grafeo_core::execution::operators::push::{LimitPushOperator, SkipLimitPushOperator, SkipPushOperator};
+use grafeo_core::execution::pipeline::{PushOperator, Sink};
 
-#[kani::proof]
-#[kani::unwind(5)]
-fn x_c18_binary_quantizer() {
-    let a: [f32; 3] = [f32::from_bits(kani::any()), f32::from_bits(kani::any()), f32::from_bits(kani::any())];
-    let b: [f32; 3] = [f32::from_bits(kani::any()), f32::from_bits(kani::any()), f32::from_bits(kani::any())];
-    let (qa, qb) = (BinaryQuantizer::quantize(&a), BinaryQuantizer::quantize(&b));
-    assert!(qa.len() == 1 && qb.len() == 1 && BinaryQuantizer::words_needed(3) == 1);
-    let mut i = 0;
-    while i < 3 { assert!(((qa[0] >> i) & 1 == 1) == (a[i] >= 0.0), "bit is not the sign of the component"); i += 1; }
-    assert!(qa[0] >> 3 == 0);
-    let mut diff = 0u32; let mut i = 0;
-    while i < 3 { if (a[i] >= 0.0) != (b[i] >= 0.0) { diff += 1; } i += 1; }
-    assert!(BinaryQuantizer::hamming_distance(&qa, &qb) == diff, "Hamming distance is not the number of sign disagreements");
-    assert!(BinaryQuantizer::hamming_distance(&qa, &qb) == BinaryQuantizer::hamming_distance(&qb, &qa));
-    assert!(BinaryQuantizer::hamming_distance(&qa, &qa) == 0);
-    kani::cover!(diff == 3);
-    kani::cover!(diff == 0 && a[0].is_nan());
-    std::mem::forget((qa, qb));
+/// source of two chunks of concrete sizes A and B holding the running row number 0,1,2,...
+struct Src { sizes: [usize; 2], i: usize, next_val: i64 }
+fn mk_chunk(n: usize, first: i64) -> DataChunk {
+    let mut b = DataChunkBuilder::with_capacity(&[LogicalType::Int64], 4);
+    let mut j = 0;
+    while j < n { b.column_mut(0).unwrap().push_int64(first + j as i64); b.advance_row(); j += 1; }
+    b.finish()
+}
+impl Operator for Src {
+    fn next(&mut self) -> OperatorResult {
+        if self.i >= 2 { return Ok(None); }
+        let n = self.sizes[self.i];
+        self.i += 1;
+        let c = mk_chunk(n, self.next_val);
+        self.next_val += n as i64;
+        Ok(Some(c))
+    }
+    fn reset(&mut self) { self.i = 0; self.next_val = 0; }
+    fn name(&self) -> &'static str { "Src" }
 }
 
-fn no_eviction(_m: &BufferManager, _to_free: usize) -> usize { 0 }
+struct Out { v: [i64; 8], n: usize }
+impl Out {
+    fn new() -> Self { Out { v: [-1; 8], n: 0 } }
+    fn take(&mut self, c: &DataChunk) {
+        let col = c.column(0).unwrap();
+        for row in c.selected_indices() {
+            let x = col.get_int64(row).unwrap();
+            assert!(self.n < 8);
+            self.v[self.n] = x;
+            self.n += 1;
+        }
+    }
+}
+fn drain(op: &mut dyn Operator, out: &mut Out) {
+    let mut calls = 0;
+    while calls < 4 {
+        match op.next() {
+            Ok(Some(c)) => { out.take(&c); std::mem::forget(c); }
+            Ok(None) => return,
+            Err(_) => panic!("operator error"),
+        }
+        calls += 1;
+    }
+    // after 4 calls a 2-chunk input must be exhausted
+    assert!(matches!(op.next(), Ok(None)), "operator did not finish");
+}
+fn check_window(out: &Out, total: usize, s: usize, l: usize) {
+    let start = if s < total { s } else { total };
+    let avail = total - start;
+    let cnt = if l < avail { l } else { avail };
+    assert!(out.n == cnt, "wrong number of rows");
+    let mut i = 0;
+    while i < 8 { if i < cnt { assert!(out.v[i] == (start + i) as i64, "wrong row in the window"); } i += 1; }
+}
+
+macro_rules! pull_h { ($name:ident, $a:expr, $b:expr) => {
+    #[kani::proof]
+    #[kani::unwind(6)]
+    #[kani::stub(alloc::fmt::format, fmt_stub)]
+    fn $name() {
+        let (s, l): (usize, usize) = (kani::any(), kani::any());
+        kani::assume(s <= 6 && l <= 6);
+        let which: u8 = kani::any();
+        kani::assume(which < 3);
+        let src = Box::new(Src { sizes: [$a, $b], i: 0, next_val: 0 });
+        let schema = vec![LogicalType::Int64];
+        let mut out = Out::new();
+        if which == 0 {
+            let mut op = LimitOperator::new(src, l, schema);
+            drain(&mut op, &mut out);
+            check_window(&out, $a + $b, 0, l);
+            std::mem::forget(op);
+        } else if which == 1 {
+            let mut op = SkipOperator::new(src, s, schema);
+            drain(&mut op, &mut out);
+            check_window(&out, $a + $b, s, 100);
+            std::mem::forget(op);
+        } else {
+            let mut op = LimitSkipOperator::new(src, s, l, schema);
+            drain(&mut op, &mut out);
+            check_window(&out, $a + $b, s, l);
+            std::mem::forget(op);
+        }
+        kani::cover!(out.n == 2);
+    }
+}; }
+pull_h!(x_pull_2_3, 2, 3);
+pull_h!(x_pull_3_0, 3, 0);
+
+struct RecSink { out: Out, stop_after: usize }
+impl Sink for RecSink {
+    fn consume(&mut self, chunk: DataChunk) -> Result<bool, OperatorError> { self.out.take(&chunk); std::mem::forget(chunk); Ok(true) }
+    fn finalize(&mut self) -> Result<(), OperatorError> { Ok(()) }
+    fn name(&self) -> &'static str { "Rec" }
+}
+macro_rules! push_h { ($name:ident, $a:expr, $b:expr) => {
+    #[kani::proof]
+    #[kani::unwind(6)]
+    #[kani::stub(alloc::fmt::format, fmt_stub)]
+    fn $name() {
+        let (s, l): (usize, usize) = (kani::any(), kani::any());
+        kani::assume(s <= 6 && l <= 6);
+        let which: u8 = kani::any();
+        kani::assume(which < 3);
+        let mut sink = RecSink { out: Out::new(), stop_after: 0 };
+        let (c0, c1) = (mk_chunk($a, 0), mk_chunk($b, $a as i64));
+        if which == 0 {
+            let mut op = LimitPushOperator::new(l);
+            let go = op.push(c0, &mut sink).unwrap();
+            if go { let _ = op.push(c1, &mut sink).unwrap(); } else { std::mem::forget(c1); }
+            op.finalize(&mut sink).unwrap();
+            check_window(&sink.out, $a + $b, 0, l);
+        } else if which == 1 {
+            let mut op = SkipPushOperator::new(s);
+            let go = op.push(c0, &mut sink).unwrap();
+            if go { let _ = op.push(c1, &mut sink).unwrap(); } else { std::mem::forget(c1); }
+            op.finalize(&mut sink).unwrap();
+            check_window(&sink.out, $a + $b, s, 100);
+        } else {
+            let mut op = SkipLimitPushOperator::new(s, l);
+            let go = op.push(c0, &mut sink).unwrap();
+            if go { let _ = op.push(c1, &mut sink).unwrap(); } else { std::mem::forget(c1); }
+            op.finalize(&mut sink).unwrap();
+            check_window(&sink.out, $a + $b, s, l);
+        }
+        kani::cover!(sink.out.n == 2);
+    }
+}; }
+push_h!(x_push_2_3, 2, 3);
+
 #[kani::proof]
 #[kani::unwind(4)]
-#[kani::stub(parking_lot::RawRwLock::lock_exclusive_slow, lk_slow)]
-#[kani::stub(parking_lot::RawRwLock::lock_shared_slow, lk_sh_slow)]
-#[kani::stub(parking_lot::RawRwLock::unlock_exclusive_slow, ulk_slow)]
-#[kani::stub(parking_lot::RawRwLock::unlock_shared_slow, ulk_sh_slow)]
-#[kani::stub(alloc::fmt::format, fmt_stub)]
-#[kani::stub(grafeo_common::memory::buffer::manager::BufferManager::run_eviction_internal, no_eviction)]
-fn x_c20_split_merge() {
-    let m = BufferManager::new(BufferManagerConfig { budget: 1000, soft_limit_fraction: 1.0, evict_limit_fraction: 1.0, hard_limit_fraction: 1.0, background_eviction: false, spill_path: None });
-    let s: usize = kani::any(); kani::assume(s <= 1000);
-    let amt: usize = kani::any();
-    let g = m.try_allocate(s, MemoryRegion::GraphStorage);
-    if let Some(mut g) = g {
-        let h = g.split(amt);
-        match h {
-            Some(h) => {
-                assert!(amt <= s && g.size() + h.size() == s && h.size() == amt, "split loses or invents bytes");
-                assert!(m.allocated() == s);
-                g.merge(h);
-                assert!(g.size() == s && m.allocated() == s, "merge loses or invents bytes");
-            }
-            None => { assert!(amt > s && g.size() == s && m.allocated() == s); }
-        }
-        m.release(g.size(), g.region());
-        assert!(m.allocated() == 0);
-        kani::cover!(amt < s);
-        std::mem::forget(g);
-    }
-    std::mem::forget(m);
+fn m1_vec_tag() {
+    let v = vec![LogicalType::Int64];
+    let c = v[0].clone();
+    assert!(c == LogicalType::Int64);
+    kani::cover!(true);
+    std::mem::forget((v, c));
+}
+#[kani::proof]
+#[kani::unwind(4)]
+fn m2_chunk_stack_schema() {
+    let x: i64 = kani::any();
+    let c = mk_chunk(2, x);
+    assert!(c.column(0).unwrap().get_int64(1) == Some(x + 1) || x == i64::MAX);
+    kani::cover!(true);
+    std::mem::forget(c);
+}
+#[kani::proof]
+#[kani::unwind(4)]
+fn m3_chunk_vec_schema() {
+    let x: i64 = kani::any();
+    let schema = vec![LogicalType::Int64];
+    let mut b = DataChunkBuilder::with_capacity(&schema, 4);
+    b.column_mut(0).unwrap().push_int64(x); b.advance_row();
+    let c = b.finish();
+    assert!(c.column(0).unwrap().get_int64(0) == Some(x));
+    kani::cover!(true);
+    std::mem::forget((c, schema));
 }
